@@ -50,7 +50,7 @@ pub fn properties_of(v: &Violation) -> Vec<&'static str> {
                 vec!["C01"]
             }
         }
-        "I10" | "H4" => vec!["C12"],
+        "I10" | "H4" | "H5" => vec!["C12"],
         "I11" => {
             if v.key == "rustc:E0072" {
                 vec!["C01", "C07"]
